@@ -89,19 +89,19 @@ package phase3
 //@ func breakEdge
 //@   requires g != nil && e != nil && e.From != nil && e.To != nil
 //@   requires 0 <= e.From.Layer + 1 && e.From.Layer + 1 < len(g.Layers) && g.Layers[e.From.Layer + 1] != nil
-//@   requires[sep|C02,C03] listsApart(g)
-//@   ensures[halves|C02,C03] result0 == e && e.From == old(e.From) && e.To != nil && !old(allocated(now(e.To))) && result1 != nil && !old(allocated(result1))
+//@   requires[sep|C01,C02,C03] listsApart(g)
+//@   ensures[halves|C01,C02,C03] result0 == e && e.From == old(e.From) && e.To != nil && !old(allocated(now(e.To))) && result1 != nil && !old(allocated(result1))
 //@       && result1.From == e.To && result1.To == old(e.To) && result1.IsReversed == e.IsReversed && e.IsReversed == old(e.IsReversed)
-//@   ensures[helper|C02,C03] e.To.IsVirtual && e.To.Layer == old(e.From.Layer) + 1 && len(e.To.In) == 1 && e.To.In[0] == e && len(e.To.Out) == 1 && e.To.Out[0] == result1
-//@   ensures[lists|C02,C03] len(g.Edges) == old(len(g.Edges)) + 1 && g.Edges[len(g.Edges)-1] == result1 && len(g.Nodes) == old(len(g.Nodes)) + 1 && g.Nodes[len(g.Nodes)-1] == e.To
+//@   ensures[helper|C01,C02,C03] e.To.IsVirtual && e.To.Layer == old(e.From.Layer) + 1 && len(e.To.In) == 1 && e.To.In[0] == e && len(e.To.Out) == 1 && e.To.Out[0] == result1
+//@   ensures[lists|C01,C02,C03] len(g.Edges) == old(len(g.Edges)) + 1 && g.Edges[len(g.Edges)-1] == result1 && len(g.Nodes) == old(len(g.Nodes)) + 1 && g.Nodes[len(g.Nodes)-1] == e.To
 //@       && (forall i int :: 0 <= i && i < old(len(g.Edges)) ==> g.Edges[i] == old(g.Edges[i])) && (forall i int :: 0 <= i && i < old(len(g.Nodes)) ==> g.Nodes[i] == old(g.Nodes[i]))
-//@   ensures[band|C02,C03] len(g.Layers[e.To.Layer].Nodes) == old(len(g.Layers[e.From.Layer + 1].Nodes)) + 1 && g.Layers[e.To.Layer].Nodes[len(g.Layers[e.To.Layer].Nodes)-1] == e.To
-//@   ensures[frame|C02,C03] (forall m *Node :: old(allocated(m)) ==> m.Layer == old(m.Layer)) && len(g.Layers) == old(len(g.Layers))
+//@   ensures[band|C01,C02,C03] len(g.Layers[e.To.Layer].Nodes) == old(len(g.Layers[e.From.Layer + 1].Nodes)) + 1 && g.Layers[e.To.Layer].Nodes[len(g.Layers[e.To.Layer].Nodes)-1] == e.To
+//@   ensures[frame|C01,C02,C03] (forall m *Node :: old(allocated(m)) ==> m.Layer == old(m.Layer)) && len(g.Layers) == old(len(g.Layers))
 //@       && (forall k int :: 0 <= k && k < len(g.Layers) ==> g.Layers[k] == old(g.Layers[k]))
-//@   ensures[sepkept|C02,C03] listsApart(g)
+//@   ensures[sepkept|C01,C02,C03] listsApart(g)
 //@   loop range(to.In)#1 index a
 //@     invariant forall t []*Edge, j int :: arr(t) != arr(to.In) ==> t[j] == loopold(t[j])
-//@   ensures[others|C02,C03] forall x *Edge :: x != e && old(allocated(x)) ==> x.From == old(x.From) && x.To == old(x.To) && x.IsReversed == old(x.IsReversed)
+//@   ensures[others|C01,C02,C03] forall x *Edge :: x != e && old(allocated(x)) ==> x.From == old(x.From) && x.To == old(x.To) && x.IsReversed == old(x.IsReversed)
 
 // After breakLongEdges every edge joins neighbouring bands or stays in its band (C03: a proper layering; what the
 // orderer, the positioners and the routers assume). endsValid: every edge has both ends, in bands that exist.
